@@ -258,5 +258,16 @@ class World:
                 out.append(str(args[0].name))
         return out
 
+    def reported_lines(self):
+        """Everything the command told the user: echoed lines and log records from WARNING up (the channel is free)."""
+        out = [str(x) for x in self.out]
+        for name, level, msg, args in CAPTURE.records:
+            if level >= logging.WARNING:
+                try:
+                    out.append(str(msg) % tuple(args) if args else str(msg))
+                except Exception:
+                    out.append(str(msg) + " " + " ".join(str(getattr(a, "name", a)) for a in args))
+        return out
+
     def clear_records(self):
         del CAPTURE.records[:]
